@@ -94,6 +94,20 @@ def cases(tier):
     for c in base_cfgs(tier, True):
         for end in ends:
             cs.append(dict(c, end=end))
+    # long runs (hundreds of updates, steps from seconds to weeks)
+    for c in base_cfgs(tier, False)[:: (6 if q else 2)]:
+        tcs = [x for x in c["comps"] if x["kind"] == "T"]
+        if any(x.get("finish_at") for x in tcs):
+            continue
+        lists = [[1, 2.5, 0.75], [2, 1, 1, 3.5], [0.5, 3]][: len(tcs)]
+        if len(lists) < len(tcs):
+            continue
+        c2 = dict(c, comps=[dict(x) for x in c["comps"]], end=250.25, update_cap=5000)
+        for x, fx in zip([x for x in c2["comps"] if x["kind"] == "T"], lists):
+            x["fixed"] = fx
+        if c2["family"].startswith("ring"):
+            continue
+        cs.append(c2)
     return cs
 
 
